@@ -69,12 +69,19 @@ pub fn real_compress(p: &[u8], pieces: &[usize]) -> Vec<u8> {
         &CompressionConfig::default(),
     ));
     let mut off = 0;
+    // zero-length writes are legal `Write` calls (`write_all` never makes one): issued before the first byte,
+    // between the pieces and after the last byte for every other piece list — at a block boundary such a call
+    // opens a block that stays empty
+    let empties = pieces.len() % 2 == 1 || p.len() % 4 == 1;
+    if empties { let _ = w.write(&[]).unwrap(); }
     for &n in pieces {
         let hi = (off + n).min(p.len());
         w.write_all(&p[off..hi]).unwrap();
+        if empties { let _ = w.write(&[]).unwrap(); }
         off = hi;
     }
     w.write_all(&p[off..]).unwrap();
+    if empties { let _ = w.write(&[]).unwrap(); }
     w.finalize().unwrap();
     w.into_raw()
 }
